@@ -350,6 +350,25 @@ theorem C19_subparse_wraps_marked_constructs (st : Stmts) (V : Val) (fuel : Nat)
   · intro hn
     simp only [subparse, hn, if_true]
 
+/-- Sentence 1 for the PARSER edit (Nunavut's settings): in the token stream of a source without `{{*` / `{%*` no begin
+token ends in `*` (the upstream alternatives end in `-`, `+`, or the last character of the start string; raw begin tokens
+never reach the parser), so `Parser.subparse` builds no `lineprefix` wrapper anywhere — the tree is the one the unedited
+parser builds — and the whole model pipeline source → text is the same with the upstream lexer. -/
+theorem C19_parser_edit_invisible_without_marker (e : Env) (hl : e.noLinePrefixes) (tb : Tables) (st : Stmts)
+    (keep : Bool) (seq source : Str) (h : hasMarker e.cfg source = false) :
+    (∀ p ∈ tokenize e tb keep seq source, parserWraps p = false) ∧
+      (∀ items ns, groupItems none (tokenize e tb keep seq source) = some items → parseItems st items = .ok ns →
+        wrapperFreeL ns = true) ∧
+      (∀ V, renderTemplate e tb st V keep seq source = renderTemplate e.upstream tb st V keep seq source) := by
+  have hno := tokenize_no_parserWraps e hl.1 hl.2 tb keep seq source h
+  refine ⟨hno, ?_, ?_⟩
+  · intro items ns hg hp
+    exact parseItems_wrapperFree st items
+      (groupItems_noStar none _ items hg hno (by intro b v acc hc; cases hc)) ns hp
+  · intro V
+    unfold renderTemplate
+    rw [(C19_tokeniter_eq_stock_without_marker e tb keep seq source h).2]
+
 /-- `lineprefix` on a text given by its lines (no line boundary inside a line): every non-empty line gets the prefix,
 lines are joined by `\n`, and a final empty line (= the text ended in a terminator) disappears. -/
 theorem C19_lineprefix_lines (p : Str) (ls : List Str) (h : ∀ l ∈ ls, breakFree l) :
@@ -496,6 +515,13 @@ example : renderTemplate (envN true false false) asciiTables coreStmts valX true
 -- a `*` on the end tag is ignored; without markers nothing is wrapped
 example : renderTemplate (envN true false false) asciiTables coreStmts valX true "\n".toList
     "{% if c %}k{%* endif %}|".toList = some "k|".toList := by decide +kernel
+-- the parser edit is invisible without marker (wrapper-free tree) and visible with one
+def treeOf (src : String) : Option (List Node) :=
+  match groupItems none (tokenize (envN true false false) asciiTables true "\n".toList src.toList) with
+  | some is => (match parseItems coreStmts is with | .ok ns => some ns | .error _ => none)
+  | none => none
+example : (treeOf "a {%- if c %} x{{ v * 2 }}{% else %}{% include 'p' %}{% endif %}").map wrapperFreeL = some true := by decide +kernel
+example : (treeOf "a {% if c %}\n  {{* v }}{% endif %}").map wrapperFreeL = some false := by decide +kernel
 -- the two composition laws at work, and why the exact laws need their side conditions
 example : lineprefix " ".toList (lineprefix "\t".toList "a\n\nb".toList) = " \ta\n\n \tb".toList := by decide +kernel
 example : lineprefix " ".toList (lineprefix "\t".toList "a\n\n".toList) = " \ta".toList ∧
